@@ -156,34 +156,52 @@ Qed.
 Lemma place32_nl : forall H limit nl, exists s e, place32 H limit nl = (s, e).
 Proof. intros. destruct (place32 H limit nl) as [s e]. eauto. Qed.
 
-Theorem newcounter_total : forall f H name, table_end H + 4 <= b_len f -> wraps f H name = false ->
+(* the reservation loop: the overflow test of fix 633eed3 fails the call, or
+   there is at most one extension and then the commit *)
+Lemma reserve_shape : forall f H name head, table_end H + 4 <= b_len f ->
+  reserve true 3 f H name head = (NErr RCorrupt, f) \/
+  exists f0 s e, place32 H (rd32 f (H + c_limitOff)) (N.of_nat (length name)) = (s, e) /\
+    rd32 f (H + c_limitOff) <= s /\
+    reserve true 3 f H name head = commit true f0 H name head s e /\
+    (f0 = f \/ exists e', b_len f < e' /\ f0 = grow f e').
+Proof.
+  intros f H name head A4.
+  assert (Lim : load32 f (H + c_limitOff) = Some (rd32 f (H + c_limitOff))) by (apply load32_in; rconsts; lia).
+  cbn [reserve]. rewrite Lim.
+  destruct (place32 H (rd32 f (H + c_limitOff)) (N.of_nat (length name))) as [s e] eqn:Pl.
+  destruct ((s <? rd32 f (H + c_limitOff)) || (e <? s) || (round32 e RPAGE <? e)) eqn:Ov; [left; reflexivity|right].
+  bsimp.
+  destruct (b_len f <? e) eqn:Q1.
+  - bsimp.
+    assert (Q2 : (b_len f <? round32 e RPAGE) = true) by (apply N.ltb_lt; lia). rewrite Q2.
+    cbn [b_len grow]. rewrite N.ltb_irrefl.
+    set (e' := round32 e RPAGE) in *.
+    assert (Lim' : load32 (grow f e') (H + c_limitOff) = Some (rd32 f (H + c_limitOff))).
+    { rewrite load32_in by (cbn; rconsts; lia). f_equal. apply rd32_grow_low; rconsts; lia. }
+    rewrite Lim', Pl.
+    assert (Ov' : (s <? rd32 f (H + c_limitOff)) || (e <? s) || (round32 e RPAGE <? e) = false).
+    { apply orb_false_iff. split; [apply orb_false_iff; split|]; apply N.ltb_ge; fold e'; lia. }
+    rewrite Ov'. cbn [b_len grow].
+    assert (Q3 : (e' <? e) = false) by (apply N.ltb_ge; lia). rewrite Q3.
+    exists (grow f e'), s, e. split; [reflexivity|]. split; [lia|]. split; [reflexivity|]. right. exists e'. split; [lia|reflexivity].
+  - exists f, s, e. split; [reflexivity|]. split; [lia|]. split; [reflexivity|]. left; reflexivity.
+Qed.
+
+(* newCounter is total on EVERY file (fix 633eed3 closes the 4 GiB wrap-around) *)
+Theorem newcounter_total : forall f H name, table_end H + 4 <= b_len f ->
   fst (new_counter f H name) <> NFuel /\ fst (new_counter f H name) <> NFault.
 Proof.
-  intros f H name A4 Wr. assert (A : table_end H <= b_len f) by lia. unfold new_counter, new_counter_gen.
+  intros f H name A4. assert (A : table_end H <= b_len f) by lia. unfold new_counter, new_counter_gen.
   destruct (N.of_nat (length name) =? 0); [split; discriminate|].
   destruct (c_maxNameLen <? N.of_nat (length name)); [split; discriminate|].
   pose proof (lookup_total f H name A) as [T1 T2]. unfold lookup in T1, T2.
   destruct (lookup_gen true (walk_fuel f) f H name) as [off|head| | |] eqn:El; try (split; discriminate); try congruence.
   pose proof (lookup_notfound_head _ _ _ _ _ _ A El) as Hd.
   pose proof (head_off_bounds H name) as [B1 B2].
-  assert (Lim : load32 f (H + c_limitOff) = Some (rd32 f (H + c_limitOff))) by (apply load32_in; rconsts; lia).
-  unfold wraps in Wr. rewrite Lim in Wr.
-  cbn [reserve]. rewrite Lim.
-  destruct (place32 H (rd32 f (H + c_limitOff)) (N.of_nat (length name))) as [s e] eqn:Pl. cbn [snd] in Wr.
-  destruct (b_len f <? e) eqn:Q1.
-  - (* one extension, then the commit *)
-    cbn [andb] in Wr. bsimp.
-    assert (Rn : e <= round32 e RPAGE) by (apply round32_nowrap; rconsts; lia).
-    assert (Q2 : (b_len f <? round32 e RPAGE) = true) by (apply N.ltb_lt; lia). rewrite Q2.
-    cbn [b_len grow]. rewrite N.ltb_irrefl.
-    set (e' := round32 e RPAGE) in *.
-    assert (Lim' : load32 (grow f e') (H + c_limitOff) = Some (rd32 f (H + c_limitOff))).
-    { rewrite load32_in by (cbn; rconsts; lia). f_equal. apply rd32_grow_low; rconsts; lia. }
-    rewrite Lim', Pl. cbn [b_len grow].
-    assert (Q3 : (e' <? e) = false) by (apply N.ltb_ge; lia). rewrite Q3.
-    apply commit_outcome; [cbn [b_len grow]; lia|].
-    rewrite rd32_grow_low; [exact Hd|lia|rconsts; lia].
-  - apply commit_outcome; assumption.
+  destruct (reserve_shape f H name head A4) as [E|(f0 & s & e & Pl & Ls & Rs & F0)]; [rewrite E; split; discriminate|].
+  rewrite Rs. apply commit_outcome.
+  - destruct F0 as [->|(e' & Le & ->)]; cbn; lia.
+  - destruct F0 as [->|(e' & Le & ->)]; [exact Hd|]. rewrite rd32_grow_low; [exact Hd|lia|rconsts; lia].
 Qed.
 
 (* ---- what a call may write ---- *)
@@ -233,57 +251,34 @@ Proof.
     intros o X. destruct (changed_trans f f4 _ o X) as [Y|Y]; [right; left; exact (wr_changed _ _ _ _ _ Y)|apply C4; exact Y].
 Qed.
 
-(* outside the wrap-around class the reservation loop is: at most one
-   extension, then the commit *)
-Lemma reserve_shape : forall f H name head, table_end H + 4 <= b_len f -> wraps f H name = false ->
-  exists f0 s e, place32 H (rd32 f (H + c_limitOff)) (N.of_nat (length name)) = (s, e) /\
-    reserve true 3 f H name head = commit true f0 H name head s e /\
-    (f0 = f \/ exists e', b_len f < e' /\ f0 = grow f e').
-Proof.
-  intros f H name head A4 Wr.
-  assert (Lim : load32 f (H + c_limitOff) = Some (rd32 f (H + c_limitOff))) by (apply load32_in; rconsts; lia).
-  unfold wraps in Wr. rewrite Lim in Wr. cbn [reserve]. rewrite Lim.
-  destruct (place32 H (rd32 f (H + c_limitOff)) (N.of_nat (length name))) as [s e] eqn:Pl. cbn [snd] in Wr.
-  destruct (b_len f <? e) eqn:Q1.
-  - cbn [andb] in Wr. bsimp.
-    assert (Rn : e <= round32 e RPAGE) by (apply round32_nowrap; rconsts; lia).
-    assert (Q2 : (b_len f <? round32 e RPAGE) = true) by (apply N.ltb_lt; lia). rewrite Q2.
-    cbn [b_len grow]. rewrite N.ltb_irrefl.
-    set (e' := round32 e RPAGE) in *.
-    assert (Lim' : load32 (grow f e') (H + c_limitOff) = Some (rd32 f (H + c_limitOff))).
-    { rewrite load32_in by (cbn; rconsts; lia). f_equal. apply rd32_grow_low; rconsts; lia. }
-    rewrite Lim', Pl. cbn [b_len grow].
-    assert (Q3 : (e' <? e) = false) by (apply N.ltb_ge; lia). rewrite Q3.
-    exists (grow f e'), s, e. split; [reflexivity|]. split; [reflexivity|]. right. exists e'. split; [lia|reflexivity].
-  - exists f, s, e. split; [reflexivity|]. split; [reflexivity|]. left; reflexivity.
-Qed.
-
 (* FAILURE ISOLATION, part 1: the bytes of the file as found that a call of
    newCounter(name) may change, whether it succeeds or fails: the limit word,
    the head word of name's own bucket, bytes 8.. of the record it reserved
    (which lies after the hash table: fix 69df376), and the at most three last
    bytes of a file whose length is not a multiple of four when it is extended *)
-Theorem new_counter_frame : forall f H name r f', table_end H + 4 <= b_len f -> wraps f H name = false ->
+Theorem new_counter_frame : forall f H name r f', table_end H + 4 <= b_len f ->
   new_counter f H name = (r, f') ->
   b_len f <= b_len f' /\
   forall o, o < b_len f -> b_at f' o <> b_at f o ->
     in_range (H + c_limitOff) 4 o \/ in_range (head_off H name) 4 o \/
     (let s := fst (place32 H (rd32 f (H + c_limitOff)) (N.of_nat (length name))) in
-     table_end H <= s /\ in_range (s + 8) (8 + N.of_nat (length name)) o) \/
+     table_end H <= s /\ rd32 f (H + c_limitOff) <= s /\ in_range (s + 8) (8 + N.of_nat (length name)) o) \/
     (exists e', b_len f < e' /\ e' <= o + 4).
 Proof.
-  intros f H name r f' A4 Wr E. unfold new_counter, new_counter_gen in E.
+  intros f H name r f' A4 E. unfold new_counter, new_counter_gen in E.
   destruct (N.of_nat (length name) =? 0); [inversion E; subst; split; [lia|intros o _ Y; exfalso; apply Y; reflexivity]|].
   destruct (c_maxNameLen <? N.of_nat (length name)); [inversion E; subst; split; [lia|intros o _ Y; exfalso; apply Y; reflexivity]|].
   destruct (lookup_gen true (walk_fuel f) f H name) as [off|head| | |] eqn:El;
     try (inversion E; subst; split; [lia|intros o _ Y; exfalso; apply Y; reflexivity]).
-  destruct (reserve_shape f H name head A4 Wr) as (f0 & s & e & Pl & Rs & F0). rewrite Rs in E. rewrite Pl. cbn [fst].
+  destruct (reserve_shape f H name head A4) as [Er|(f0 & s & e & Pl & Ls & Rs & F0)];
+    [rewrite Er in E; inversion E; subst; split; [lia|intros o _ Y; exfalso; apply Y; reflexivity]|].
+  rewrite Rs in E. rewrite Pl. cbn [fst].
   assert (A0 : table_end H <= b_len f0) by (destruct F0 as [->|(e' & Le & ->)]; cbn; lia).
   destruct (commit_frame f0 H name head s e r f' A0 E) as [Ln Fr].
   split; [rewrite Ln; destruct F0 as [->|(e' & Le & ->)]; cbn; lia|].
   intros o Lo X.
   destruct (changed_trans f f0 f' o X) as [Y|Y].
-  - destruct (Fr o Y) as [Z|[Z|(Z1 & Z2 & Z3)]]; auto.
+  - destruct (Fr o Y) as [Z|[Z|(Z1 & Z2 & Z3)]]; auto 6.
   - destruct F0 as [->|(e' & Le & ->)]; [exfalso; apply Y; reflexivity|].
     right. right. right. exists e'. split; [exact Le|].
     destruct (N.le_gt_cases e' (o + 4)) as [C|C]; [exact C|]. exfalso. apply Y. apply grow_at_low; lia.
@@ -306,27 +301,18 @@ Qed.
    the hash table and below the allocation limit found in the file keeps its
    value through a newCounter call on any name, successful or not *)
 Theorem other_cell_preserved : forall f H name r f' c,
-  table_end H + 4 <= b_len f -> wraps f H name = false -> new_counter f H name = (r, f') ->
-  table_end H <= c -> c + 12 <= b_len f ->
-  c + 8 <= rd32 f (H + c_limitOff) -> rd32 f (H + c_limitOff) + 2 * RPAGE <= R32 ->
+  table_end H + 4 <= b_len f -> new_counter f H name = (r, f') ->
+  table_end H <= c -> c + 12 <= b_len f -> c + 8 <= rd32 f (H + c_limitOff) ->
   rd64 f' c = rd64 f c.
 Proof.
-  intros f H name r f' c A4 Wr E C1 C2 C3 C4.
-  destruct (new_counter_frame f H name r f' A4 Wr E) as [Ln Fr].
+  intros f H name r f' c A4 E C1 C2 C3.
+  destruct (new_counter_frame f H name r f' A4 E) as [Ln Fr].
   apply rd64_same. intros o Ho.
   destruct (N.eq_dec (b_at f' o) (b_at f o)) as [Eq|Ne]; [exact Eq|]. exfalso.
   pose proof (head_off_bounds H name) as [B1 B2].
   destruct (Fr o ltac:(lia) Ne) as [Z|[Z|[Z|Z]]].
   - unfold in_range in Z. rconsts. lia.
   - unfold in_range in Z. lia.
-  - cbv zeta in Z. destruct Z as [Z1 Z2]. unfold in_range in Z2.
-    (* the reserved record starts at or after the limit *)
-    set (L := rd32 f (H + c_limitOff)) in *.
-    assert (S : L <= fst (place32 H L (N.of_nat (length name)))).
-    { unfold place32. assert (L0 : (L =? 0) = false) by (apply N.eqb_neq; lia). rewrite L0. cbv zeta.
-      pose proof (round32_nowrap L RUNIT ltac:(rconsts; lia) ltac:(rconsts; lia)) as (U1 & _).
-      pose proof (round32_nowrap L RPAGE ltac:(rconsts; lia) ltac:(rconsts; lia)) as (P1 & _).
-      match goal with |- context [if ?c then _ else _] => destruct c end; cbn [fst]; lia. }
-    lia.
+  - cbv zeta in Z. destruct Z as (Z1 & Z2 & Z3). unfold in_range in Z3. lia.
   - destruct Z as (e' & Z1 & Z2). lia.
 Qed.
